@@ -872,7 +872,7 @@ func loadKnown(root, id string) []knownFinding {
 
 func matchKnown(known []knownFinding, v violation) int {
 	for i, k := range known {
-		if k.Sub == v.Sub && k.Fingerprint == v.FP {
+		if (k.Sub == v.Sub || k.Sub == "*") && k.Fingerprint == v.FP {
 			return i
 		}
 	}
